@@ -68,7 +68,9 @@ def opsCodec : Handler := fun st toks =>
   | "note" :: _ => some (st, "ok")      -- generator annotations (shape / corruption labels), echoed by both sides
   | ["ser", d] => do
     let (_, sl) ← b? d
-    pure (st, specMark (showBytes (Bitmap.serialize sl.m)) (showBytes (Spec.encode sl.s)))
+    match Bitmap.serializeM st.dbg sl.m with
+    | some bytes => pure (st, specMark (showBytes bytes) (showBytes (Spec.encode sl.s)))
+    | none => pure (st, specMark "panic" (showBytes (Spec.encode sl.s)))
   | ["ser_size", d] => do
     let (_, sl) ← b? d
     pure (st, specMark (toString (Bitmap.serializedSize sl.m)) (toString (Spec.encode sl.s).length))
@@ -117,9 +119,12 @@ def opsCodec : Handler := fun st toks =>
     pure (finishDeser st i chk bytes r)
   | ["deser_prefix", mode, d, s, k] => do
     let chk ← parseMode mode; let i ← parseSlot 'b' d; let (_, sl) ← b? s; let k ← parseU64 k
-    let bytes := (Bitmap.serialize sl.m).take k
     let total := (Spec.encode sl.s).length
     let specOut := if k < total then "err" else "ok rest=0 eq=true"
+    match Bitmap.serializeM st.dbg sl.m with
+    | none => pure (st, specMark "panic" specOut)
+    | some all =>
+    let bytes := all.take k
     match deserialize chk st.dbg bytes with
     | .ok (m, rest) =>
       pure (st.setB i ⟨m, if k < total then Bitmap.elems m else sl.s⟩,
@@ -133,9 +138,10 @@ def opsCodec : Handler := fun st toks =>
     let cyc ← parseSched sc
     let total := Spec.encode sl.s
     let w : SWriter := { accRev := [], room := k, zeroMode := zero, sched := expandSched cyc (total.length + 2) }
-    let r := Bitmap.serializeInto sl.m w
     let show_ (ok : Bool) (bs : List Nat) := (if ok then "ok" else "err") ++ s!" n={bs.length} sh={hex64 (fnv bs)}"
-    pure (st, specMark (show_ r.1 r.2.bytes) (show_ (decide (total.length ≤ k)) (total.take k)))
+    match Bitmap.serializeIntoM st.dbg sl.m w with
+    | some r => pure (st, specMark (show_ r.1 r.2.bytes) (show_ (decide (total.length ≤ k)) (total.take k)))
+    | none => pure (st, specMark "panic" (show_ (decide (total.length ≤ k)) (total.take k)))
   | ["inter_ser", d, l, h] => do
     let i ← parseSlot 'b' d; let (_, sl) ← b? l
     let bytes ← parseHex h
